@@ -125,7 +125,7 @@ Lemma first_rule_good strip sepc s c :
   Inv s -> dcount s = List.length (stack s) -> good (first_rule (rules strip sepc) s c).
 Proof.
   intros HI Hd. destruct s as [segs0 sid0 stype0 stk esc0 sinv0 smeth0 sattr0 skw0 seekre0 cap0
-                               clevel0 copr0 seekcop0 ncmb0 seekanc0 dc].
+                               clevel0 copr0 seekcop0 ncmb0 seekanc0 dc td0].
   unfold Inv in HI. simpl in HI, Hd. subst dc.
   destruct cap0.
   - (* capturing a regex: the stack is non-empty *)
